@@ -8,6 +8,7 @@ import (
 	"fmt"
 	"net/http"
 	"net/http/httptest"
+	"net/url"
 	"sort"
 	"strconv"
 	"strings"
@@ -18,8 +19,9 @@ import (
 	_ "github.com/google/martian/v3/fifo"
 	_ "github.com/google/martian/v3/header"
 	"github.com/google/martian/v3/martianhttp"
-	_ "github.com/google/martian/v3/martianurl"
+	"github.com/google/martian/v3/martianurl"
 	_ "github.com/google/martian/v3/method"
+	_ "github.com/google/martian/v3/port"
 	"github.com/google/martian/v3/parse"
 	_ "github.com/google/martian/v3/priority"
 	_ "github.com/google/martian/v3/querystring"
@@ -35,12 +37,16 @@ func (P) ID() string { return "C12" }
 func (P) Rule() string {
 	return "case = 2-4 configuration bodies POSTed to the real martianhttp configure handler (and parsed by parse.FromJSON), each followed by 3-6 " +
 		"requests/responses run through the handler's active modifier; a body is a random tree (depth <= 5, width <= 4) over fifo.Group (with and " +
-		"without aggregateErrors), priority.Group (priorities with many ties), url/header/querystring/method/cookie filters (18 conditions, with and " +
-		"without else) and probe leaves registered through parse.Register (request-only/response-only/both/neither, optionally failing), with scope " +
-		"absent/null/[]/[request]/[response]/both/duplicated at every level; about a third of the bodies carry one or two defects (unknown name, " +
-		"unsupported or unknown scope, wrong JSON shape, non-JSON text); messages vary method, scheme, host, path, query, headers and cookies so that " +
-		"each condition is both true and false; distinct by hash of the op list; non-trivial when the case has an accepted tree of depth >= 3 and a " +
-		"message whose trace is not empty"
+		"without aggregateErrors), priority.Group (priorities with many ties), url/header/querystring/method/cookie/port filters (random parameters " +
+		"over small universes incl. host wildcards, escaped queries, pseudo-headers; with and without else) and probe leaves registered through " +
+		"parse.Register (request-only/response-only/both/neither, optionally failing), with scope absent/null/[]/[request]/[response]/both/duplicated " +
+		"at every level; about a third of the bodies carry one or two defects (unknown name, unsupported or unknown scope, wrong JSON shape, non-JSON " +
+		"text); exchanges are concrete (method, URL, raw query, Host/Content-Length/Transfer-Encoding, header lines, cookies), half of them bent " +
+		"towards a condition of the tree; plus wide cases (one group of 13-40 children, few distinct priorities in mixed patterns), JSON cases (the " +
+		"plain JSON value of a tree with 1-3 blind mutations: duplicate/folded/unknown members, nulls, number forms, wrong kinds, registry-level " +
+		"duplicates), matcher cases (single conditions, MatchHost and ParseQuery on arbitrary strings), the exhaustive two-level scope matrix and a " +
+		"concurrent tier (bodies POSTed while 2-6 goroutines run traffic); distinct by hash of the op list; non-trivial when the case has an " +
+		"accepted tree of depth >= 3 and a message whose trace is not empty"
 }
 
 func (P) Nontrivial(ops []string, impl []string) bool {
@@ -50,6 +56,13 @@ func (P) Nontrivial(ops []string, impl []string) bool {
 		if len(f) > 1 && f[0] == "post" && i < len(impl) && strings.HasPrefix(impl[i], "ok") {
 			if n, ok := parseTree(f[1:]); ok && n.depth() >= 3 {
 				deep = true
+			}
+		}
+		if len(f) > 2 && f[0] == "postj" && i < len(impl) && strings.HasPrefix(impl[i], "ok") {
+			if j, rest, ok := parseJV(f[2:], 0); ok && len(rest) == 0 {
+				if n := decodeJV(j); n != nil && n.depth() >= 3 {
+					deep = true
+				}
 			}
 		}
 		if len(f) > 0 && f[0] == "run" && i < len(impl) && strings.HasPrefix(impl[i], "t=") && !strings.HasPrefix(impl[i], "t=- ") {
@@ -109,6 +122,9 @@ func probeFromJSON(b []byte) (*parse.Result, error) {
 	msg := &probeJSON{}
 	if err := json.Unmarshal(b, msg); err != nil {
 		return nil, err
+	}
+	if msg.Label < 0 {
+		return nil, fmt.Errorf("verif.Probe: negative label")
 	}
 	p := probe{msg.Label, msg.FailReq, msg.FailRes}
 	var mod interface{}
@@ -183,7 +199,7 @@ type outcome struct {
 	stopped     bool // some group stopped at an error with children left
 }
 
-func interp(n *node, response bool, truth map[int]bool) outcome {
+func interp(n *node, response bool, truth func(*condSpec) bool) outcome {
 	var o outcome
 	if n == nil || !n.actsOn(response) {
 		return o
@@ -222,17 +238,57 @@ func interp(n *node, response bool, truth map[int]bool) outcome {
 			}
 		}
 	case 'C':
-		if truth[n.cond] {
-			core.Count("cond:" + condPool[n.cond].filter + ":true")
+		if truth(n.cond) {
+			core.Count("cond:" + n.cond.filter() + ":true")
 			return interp(n.kids[0], response, truth)
 		}
-		core.Count("cond:" + condPool[n.cond].filter + ":false")
+		core.Count("cond:" + n.cond.filter() + ":false")
 		return interp(n.els, response, truth)
 	}
 	return o
 }
 
 // ---- executing ops on the real code ----
+
+// matcherSays: which branch the REAL filter built from the condition's JSON takes on the message.
+func matcherSays(c *condSpec, m *message, response bool) bool {
+	register()
+	// (port.Filter has no else branch: its "else" member is ignored and an untouched message means "does not hold")
+	text := fmt.Sprintf(`{"%s": {%s"modifier": {"verif.Probe": {"label": 1, "caps": "b"}}, "else": {"verif.Probe": {"label": 0, "caps": "b"}}}}`, c.filter(), c.params())
+	r, err := parse.FromJSON([]byte(text))
+	if err != nil {
+		panic("matcherSays: " + err.Error() + ": " + text)
+	}
+	req, res := m.build()
+	var tr []string
+	if response {
+		r.ResponseModifier().ModifyResponse(res)
+		tr = res.Header[traceHeader]
+	} else {
+		r.RequestModifier().ModifyRequest(req)
+		tr = req.Header[traceHeader]
+	}
+	if c.kind == 'p' && len(tr) == 0 {
+		return false
+	}
+	if len(tr) != 1 {
+		panic(fmt.Sprintf("matcherSays: trace %v", tr))
+	}
+	return tr[0] == "1"
+}
+
+func hasPortFilter(n *node) bool {
+	found := false
+	if n != nil {
+		n.walk(func(x *node) { found = found || (x.kind == 'C' && x.cond.kind == 'p') })
+	}
+	return found
+}
+
+func (m *message) describe() string {
+	return fmt.Sprintf("%s %s://%s%s?%s Host=%q CL=%d TE=%q hdr=%q cookies=%q | response CL=%d TE=%q hdr=%q cookies=%q",
+		m.method, m.scheme, m.host, m.path, m.rawQuery, m.reqHost, m.reqCL, m.reqTE, m.reqHdr, m.reqCk, m.resCL, m.resTE, m.resHdr, m.resCk)
+}
 
 type ex struct {
 	mod        *martianhttp.Modifier
@@ -293,8 +349,10 @@ func sameInts(a, b []int) bool {
 	return true
 }
 
-func (e *ex) post(n *node) core.Result {
-	text := []byte(n.json(true))
+func (e *ex) post(n *node) core.Result { return e.postText([]byte(n.json(true)), n) }
+
+// postText: the body text goes to parse.FromJSON and to the configure handler; n is what the text says.
+func (e *ex) postText(text []byte, n *node) core.Result {
 	r, perr := parse.FromJSON(text)
 	var impl string
 	if perr != nil {
@@ -333,7 +391,7 @@ func (e *ex) post(n *node) core.Result {
 	return core.Result{Impl: impl}
 }
 
-func (e *ex) run(kind string, m *msgSpec) core.Result {
+func (e *ex) run(kind string, m *message) core.Result {
 	response := kind == "s"
 	req, res := m.build()
 	var err error
@@ -354,15 +412,25 @@ func (e *ex) run(kind string, m *msgSpec) core.Result {
 		tr = append(tr, l)
 	}
 	es, flat, ok := canonErr(err)
+	if !ok && response && strings.Contains(err.Error(), "missing port in address") && hasPortFilter(e.active) {
+		return fail("c12:port-filter-response-error", "a response whose request URL (%s://%s) has no explicit port went through a port.Filter for another port: ModifyResponse returned %q instead of leaving the response alone (the request side returns nil); in a group this error stops the group (tree %s)", m.scheme, m.host, err, e.active)
+	}
 	if !ok {
 		return fail("c12:foreign-error", "modifier returned something other than nil, a leaf error, or one MultiError of leaf errors (nesting deeper than one?): %T %v", err, err)
 	}
 	impl := "t=" + intsToken(tr) + " e=" + es
-	truth := map[int]bool{}
-	for _, c := range m.truths(response) {
-		truth[c] = true
+	abstain := false
+	exp := interp(e.active, response, func(c *condSpec) bool {
+		h, known := holdsSpec(c, m, response)
+		if !known { // outside the domain where the statement fixes the matcher's meaning: follow the code
+			abstain = true
+			return matcherSays(c, m, response)
+		}
+		return h
+	})
+	if abstain {
+		core.Count("run:oracle-followed-the-matcher-outside-its-domain")
 	}
-	exp := interp(e.active, response, truth)
 	core.Count("run:err-" + es[:1])
 	if len(tr) == 0 {
 		core.Count("run:trace-empty")
@@ -399,13 +467,88 @@ func (e *ex) Do(op string) core.Result {
 		if !ok {
 			return core.Result{Impl: "bad-op"}
 		}
-		return e.post(n)
-	case len(f) == 4 && f[0] == "run" && (f[1] == "q" || f[1] == "s"):
-		m, ok := parseMsg(f[2])
-		if !ok || intsToken(m.truths(f[1] == "s")) != f[3] {
+		r := e.post(n)
+		r.ModelOp = "post " + n.String()
+		return r
+	case len(f) == 4 && f[0] == "run" && (f[1] == "q" || f[1] == "s"): // legacy: 9-integer message, atoms ignored
+		m, ok := legacyMessage(f[2])
+		if !ok {
+			return core.Result{Impl: "bad-op"}
+		}
+		r := e.run(f[1], m)
+		r.ModelOp = "run " + f[1] + " " + m.token()
+		return r
+	case len(f) == 3 && f[0] == "run" && (f[1] == "q" || f[1] == "s"):
+		m, ok := parseMessage(f[2])
+		if !ok {
 			return core.Result{Impl: "bad-op"}
 		}
 		return e.run(f[1], m)
+	case len(f) == 4 && f[0] == "cond" && (f[1] == "q" || f[1] == "s"):
+		c, ok1 := parseCondTok(f[2])
+		m, ok2 := parseMessage(f[3])
+		if !ok1 || !ok2 {
+			return core.Result{Impl: "bad-op"}
+		}
+		got := matcherSays(c, m, f[1] == "s")
+		core.Count("condop:" + c.filter() + ":" + b01(got))
+		if want, known := holdsSpec(c, m, f[1] == "s"); known && want != got {
+			return core.Result{Impl: b01(got), Sig: "c12:cond-mismatch", Fail: fmt.Sprintf("%s {%s} on a %s of the exchange %s: the filter took its %s branch, the condition %s",
+				c.filter(), c.params(), map[string]string{"q": "request", "s": "response"}[f[1]], m.describe(), map[bool]string{true: "modifier", false: "else"}[got],
+				map[bool]string{true: "holds", false: "does not hold"}[want])}
+		}
+		return core.Result{Impl: b01(got), ModelOp: "cond " + f[1] + " " + c.token() + " " + f[3]}
+	case len(f) >= 3 && f[0] == "postj":
+		style, err := strconv.Atoi(f[1])
+		j, rest, ok := parseJV(f[2:], 0)
+		if err != nil || style < 0 || style > 7 || !ok || len(rest) != 0 {
+			return core.Result{Impl: "bad-op"}
+		}
+		n := decodeJV(j)
+		if n == nil {
+			return core.Result{Impl: "bad-op"}
+		}
+		return e.postText([]byte(j.render(style)), n)
+	case len(f) == 5 && f[0] == "race":
+		seed, err := strconv.ParseUint(f[1], 10, 64)
+		nb, err1 := strconv.Atoi(f[2])
+		nw, err2 := strconv.Atoi(f[3])
+		nr, err3 := strconv.Atoi(f[4])
+		if err != nil || err1 != nil || err2 != nil || err3 != nil || nb < 1 || nb > 64 || nw < 1 || nw > 16 || nr < 1 || nr > 5000 {
+			return core.Result{Impl: "bad-op"}
+		}
+		return e.race(seed, nb, nw, nr)
+	case len(f) == 3 && f[0] == "matchhost":
+		h, ok1 := core.Unhex(f[1])
+		p, ok2 := core.Unhex(f[2])
+		if !ok1 || !ok2 {
+			return core.Result{Impl: "bad-op"}
+		}
+		got := martianurl.MatchHost(string(h), string(p))
+		core.Count("matchhost:" + b01(got))
+		if want, known := specHost(string(h), string(p)); known && want != got {
+			return core.Result{Impl: b01(got), Sig: "c12:matchhost-mismatch", Fail: fmt.Sprintf("MatchHost(%q, %q) = %v", h, p, got)}
+		}
+		return core.Result{Impl: b01(got)}
+	case len(f) == 2 && f[0] == "query":
+		q, ok := core.Unhex(f[1])
+		if !ok {
+			return core.Result{Impl: "bad-op"}
+		}
+		vals, _ := url.ParseQuery(string(q))
+		var keys []string
+		for k := range vals {
+			keys = append(keys, k)
+		}
+		sort.Strings(keys)
+		var ps [][2]string
+		for _, k := range keys {
+			for _, v := range vals[k] {
+				ps = append(ps, [2]string{k, v})
+			}
+		}
+		core.Count("query:pairs-" + strconv.Itoa(len(ps)))
+		return core.Result{Impl: pairsTok(ps)}
 	}
 	return core.Result{Impl: "bad-op"}
 }
